@@ -45,6 +45,7 @@ func runC01(r *Run) {
 	r.rule("C01.R3", "delta balance per operation (symbolic cancellation) and no other increaser", 10)
 	r.rule("C01.R4", "withdraw precondition: the withdraw arm negates the amount; delegation requires WithdrawableAmount >= amount before any write", 2)
 	r.rule("C01.R5", "iterator helpers with an isUpdate flag always write the modified record back (own key) once the callback succeeded -- also for the element on which the iteration stops", 2)
+	iteratorVisitsAllRule(r, "C01.R5", map[string]bool{"x/delegation/keeper.Keeper.IterateDelegations": true})
 	iteratorWriteBackRule(r, "C01.R5", map[string]bool{"IterateUndelegationsByStakerAndAsset": true, "IterateUndelegationsByOperator": true, "IterateAssetsForOperator": true})
 	// the direct (unguarded) subtractions of the slash path stay non-negative because the applied proportion is
 	// capped at 1: that cap is C04.R1's obligation, repeated here because "no pool is ever negative" depends on it
